@@ -134,8 +134,8 @@ def run_shard(ctx):
         ctx.event("hook_missing:" + m)
     d = drive.Driver(ctx, feat, flags="random", styles=("mixed", "runs", "tiny", "dups", "multisec"), judge_model=False, extra=monitor,
                      allow_empty=True)
-    d.loop(700, 20000)
-    binary_stratum(ctx, d.ws, ctx.share(64, 2000))
+    d.loop(800, 80000)
+    binary_stratum(ctx, d.ws, ctx.share(64, 6000))
 
 
 def replay(ctx, case):
